@@ -462,8 +462,13 @@ def extract(repo: Path) -> dict:
     tree = parse(repo, "pyxel/data_structure/array.py")
     base = find_class(tree, "ArrayBase")
     base_tl = type_list_of(base, default=[])
+    base_inlined: set = set()
+
     def nz(fn, module, scopes, params=None, keep=()):
-        return N.normalize(fn, module, scopes=scopes, keep=keep, params=params)
+        out = N.normalize(fn, module, scopes=scopes, keep=keep, params=params)
+        if scopes and scopes[0] is base:
+            base_inlined.update(out._inlined)          # helpers of ArrayBase whose body the tables now contain
+        return out
 
     # the `array` setter with its private helpers (`_validate`, whatever it is split into) inlined:
     # guards, then the store
@@ -513,6 +518,9 @@ def extract(repo: Path) -> dict:
         over = {n.name for n in cls.body if isinstance(n, ast.FunctionDef)} & BASE_ONLY
         if over:
             fail(cls, f"{cname} redefines {sorted(over)}; the model takes these from ArrayBase")
+        for n in cls.body:       # a followed (inlined) private helper of ArrayBase redefined by the subclass
+            if isinstance(n, ast.FunctionDef) and n.name in base_inlined and not N.is_message_only(n):
+                fail(n, f"{cname} redefines the helper {n.name} that ArrayBase's methods were read through")
         ini = find_func(t, "__init__", cname)
         if [norm(s) for s in body_no_doc(ini)] != ["super().__init__(shape=(geo.row, geo.col))"]:
             fail(ini, f"{cname}.__init__ must be super().__init__(shape=(geo.row, geo.col))")
